@@ -121,7 +121,10 @@ def r_features(idx, rep, rule="R-FEATURES"):
     # ---- all rectangle vertices tested against the box
     f = idx.func("distance3d.distance._box::_rectangle_points_in_box")
     fors = [n for n in ast.walk(f.node) if isinstance(n, ast.For)]
-    ok = len(fors) == 1 and u(fors[0].iter).replace(" ", "") in ("range(len(rectangle_points))", "rectangle_points", "enumerate(rectangle_points)")
+    pts = [st.targets[0].id for st in iter_stmts(f.node.body) if isinstance(st, ast.Assign) and isinstance(st.targets[0], ast.Name)
+           and isinstance(st.value, ast.Call) and (call_name(st.value) or "").endswith("convert_rectangle_to_vertices")]
+    pn_ = pts[0] if pts else "rectangle_points"
+    ok = len(fors) == 1 and u(fors[0].iter).replace(" ", "") in ("range(len(%s))" % pn_, pn_, "enumerate(%s)" % pn_)
     rep.check(ok, rule, f.key + "|all rectangle vertices", f.where, "every vertex of the rectangle must be tested against the box")
     if n_tri < 4 or n_rect < 4 or n_box < 1:
         rep.error("R-FEATURES: expected >= 4 triangle-edge loops, >= 4 rectangle-edge sites and 1 box-face site; found %d / %d / %d" % (n_tri, n_rect, n_box))
